@@ -1,0 +1,277 @@
+//go:build verif
+
+// Contracts for the deductive verifier under /verif (govc). This file is compiled only with the build
+// tag "verif"; it contains specifications as //@ comments and no executable code that the library uses.
+
+package gopacket
+
+// ---- checksum.go (C08) ----------------------------------------------------------------------------
+
+//@ spec oc16(x int) int = x == 0 ? 0 : (x-1)%65535 + 1
+//@ spec rfc(x int) int = 65535 - oc16(x)
+//@ spec rec sum16(a []byte, n int) int = n <= 0 ? 0 : sum16(a, n-2) + 256*a[n-2] + a[n-1]
+//@ spec tot16(a []byte) int = sum16(a, len(a) - len(a)%2) + (len(a)%2 == 1 ? 256*a[len(a)-1] : 0)
+
+//@ func ComputeChecksum(data []byte, csum uint32) uint32
+//@   props C08
+//@   requires csum + 65535*((len(data)+1)/2) < 4294967296
+//@   ensures  result == csum + tot16(data)
+//@   modifies nothing
+//@   loop 0: invariant 0 <= i && i%2 == 0 && i <= len(data)
+//@   loop 0: invariant sum16(data, i) <= 65535*(i/2) && sum16(data, i) >= 0
+//@   loop 0: invariant csum == old(csum) + sum16(data, i)
+//@   loop 0: decreases len(data) - i
+
+//@ func FoldChecksum(csum uint32) uint16
+//@   props C08
+//@   ensures result == rfc(csum)
+//@   modifies nothing
+//@   loop 0: invariant oc16(csum) == oc16(old(csum))
+//@   loop 0: decreases csum
+
+// ---- flows.go (C17) -------------------------------------------------------------------------------
+
+// Representation invariant of Endpoint / Flow values (all constructors establish it; fields are unexported).
+//@ pred wfE(e Endpoint) = 0 <= e.len && e.len <= 16 && (forall i in 0..16 :: e.len <= i ==> e.raw[i] == 0)
+//@ pred wfF(f Flow) = 0 <= f.slen && f.slen <= 16 && 0 <= f.dlen && f.dlen <= 16 && (forall i in 0..16 :: f.slen <= i ==> f.src[i] == 0) && (forall i in 0..16 :: f.dlen <= i ==> f.dst[i] == 0)
+
+// Sequences are (array, length) pairs; all lengths here are at most 16, so quantifiers are expanded.
+//@ pred seqeq(a []byte, la int, b []byte, lb int) = la == lb && (forall i in 0..16 :: i < la ==> a[i] == b[i])
+//@ pred lexless(a []byte, la int, b []byte, lb int) = exists k in 0..17 :: k <= la && k <= lb && (forall j in 0..16 :: j < k ==> a[j] == b[j]) && ((k < la && k < lb && a[k] < b[k]) || (k == la && k < lb))
+
+// FNV-1a, 64 bit: the recurrence the statement's "fast hash" refers to.
+//@ spec rec fnv(a []byte, n int) int = n <= 0 ? 14695981039346656037 : wrap64(bitxor64(fnv(a, n-1), a[n-1]) * 1099511628211)
+
+// Assumed contract of the standard library (definition of lexicographic byte order), for slices of <= 16 bytes.
+//@ extern bytes.Compare(a []byte, b []byte) int
+//@   requires len(a) <= 16 && len(b) <= 16
+//@   ensures (result < 0) == lexless(a, len(a), b, len(b))
+//@   ensures (result > 0) == lexless(b, len(b), a, len(a))
+//@   ensures (result == 0) == seqeq(a, len(a), b, len(b))
+//@   modifies nothing
+
+//@ func NewEndpoint(typ EndpointType, raw []byte) (e Endpoint)
+//@   props C17
+//@   panics_iff len(raw) > 16
+//@   ensures wfE(e) && e.typ == typ && e.len == len(raw)
+//@   ensures forall i in 0..16 :: i < len(raw) ==> e.raw[i] == raw[i]
+//@   modifies alloc
+
+//@ func NewFlow(t EndpointType, src []byte, dst []byte) (f Flow)
+//@   props C17
+//@   panics_iff len(src) > 16 || len(dst) > 16
+//@   ensures wfF(f) && f.typ == t && f.slen == len(src) && f.dlen == len(dst)
+//@   ensures forall i in 0..16 :: i < len(src) ==> f.src[i] == src[i]
+//@   ensures forall i in 0..16 :: i < len(dst) ==> f.dst[i] == dst[i]
+//@   modifies alloc
+
+//@ func (a Endpoint) Raw() []byte
+//@   props C17
+//@   requires wfE(a)
+//@   ensures len(result) == a.len && (forall i in 0..16 :: i < a.len ==> result[i] == a.raw[i]) && fresh(result.arr)
+//@   modifies alloc
+
+//@ func (a Endpoint) EndpointType() EndpointType
+//@   props C17
+//@   ensures result == a.typ
+
+//@ func (f Flow) EndpointType() EndpointType
+//@   props C17
+//@   ensures result == f.typ
+
+//@ func FlowFromEndpoints(src Endpoint, dst Endpoint) (_ Flow, err error)
+//@   props C17
+//@   requires wfE(src) && wfE(dst)
+//@   ensures (err != nil) == (src.typ != dst.typ)
+//@   ensures err == nil ==> wfF(result0) && result0.typ == src.typ && result0.slen == src.len && result0.dlen == dst.len
+//@   ensures err == nil ==> arreq(result0.src, src.raw) && arreq(result0.dst, dst.raw)
+//@   modifies alloc
+
+//@ func (f Flow) Endpoints() (src Endpoint, dst Endpoint)
+//@   props C17
+//@   requires wfF(f)
+//@   ensures wfE(src) && wfE(dst) && src.typ == f.typ && dst.typ == f.typ && src.len == f.slen && dst.len == f.dlen
+//@   ensures arreq(src.raw, f.src) && arreq(dst.raw, f.dst)
+//@   modifies nothing
+
+//@ func (f Flow) Src() (src Endpoint)
+//@   props C17
+//@   requires wfF(f)
+//@   ensures wfE(src) && src.typ == f.typ && src.len == f.slen && arreq(src.raw, f.src)
+//@   modifies nothing
+
+//@ func (f Flow) Dst() (dst Endpoint)
+//@   props C17
+//@   requires wfF(f)
+//@   ensures wfE(dst) && dst.typ == f.typ && dst.len == f.dlen && arreq(dst.raw, f.dst)
+//@   modifies nothing
+
+//@ func (f Flow) Reverse() Flow
+//@   props C17
+//@   requires wfF(f)
+//@   ensures wfF(result) && result.typ == f.typ && result.slen == f.dlen && result.dlen == f.slen
+//@   ensures arreq(result.src, f.dst) && arreq(result.dst, f.src)
+//@   modifies nothing
+
+//@ func fnvHash(s []byte) (h uint64)
+//@   props C17
+//@   ensures h == fnv(s, len(s))
+//@   modifies nothing
+//@   loop 0: invariant 0 <= i && i <= len(s) && h == fnv(s, i)
+//@   loop 0: decreases len(s) - i
+
+//@ func (f Flow) FastHash() (h uint64)
+//@   props C17
+//@   requires wfF(f)
+//@   ensures h == wrap64(bitxor64(wrap64(fnv(f.src, f.slen) + fnv(f.dst, f.dlen)), wrap64(f.typ)) * 1099511628211)
+//@   modifies alloc
+
+//@ func (a Endpoint) FastHash() (h uint64)
+//@   props C17
+//@   requires wfE(a)
+//@   ensures h == wrap64(bitxor64(fnv(a.raw, a.len), wrap64(a.typ)) * 1099511628211)
+//@   modifies alloc
+
+//@ func (a Endpoint) LessThan(b Endpoint) bool
+//@   props C17
+//@   requires wfE(a) && wfE(b)
+//@   ensures result == (a.typ < b.typ || (a.typ == b.typ && lexless(a.raw, a.len, b.raw, b.len)))
+//@   modifies alloc
+
+// ---- writer.go (C18) ------------------------------------------------------------------------------
+
+// Representation invariant of the library's serialize buffer; view(w) = w.data[w.start:].
+//@ pred wfB(w *serializeBuffer) = 0 <= w.start && w.start <= len(w.data) && 0 <= w.prepended && w.prepended <= cap(w.data) && 0 <= w.appended
+// No-exhaustion precondition: the grown buffer still fits the address-space bound of the memory model (2^56).
+//@ pred fitsB(w *serializeBuffer, num int) = num + 2*cap(w.data) + w.prepended + w.appended <= 36028797018963968
+
+//@ func NewSerializeBuffer() SerializeBuffer
+//@   props C18
+//@   ensures typeis(result, P_serializeBuffer) && fresh(ifaceptr(result))
+//@   ensures wfB(cast(result, serializeBuffer)) && len(cast(result, serializeBuffer).data) - cast(result, serializeBuffer).start == 0 && len(cast(result, serializeBuffer).layers) == 0
+
+//@ func NewSerializeBufferExpectedSize(expectedPrependLength int, expectedAppendLength int) SerializeBuffer
+//@   props C18
+//@   requires 0 <= expectedPrependLength && 0 <= expectedAppendLength && expectedPrependLength + expectedAppendLength <= 36028797018963968
+//@   ensures typeis(result, P_serializeBuffer) && fresh(ifaceptr(result))
+//@   ensures wfB(cast(result, serializeBuffer)) && len(cast(result, serializeBuffer).data) - cast(result, serializeBuffer).start == 0 && len(cast(result, serializeBuffer).layers) == 0
+
+//@ func (w *serializeBuffer) Bytes() []byte
+//@   props C18
+//@   requires wfB(w)
+//@   ensures result.arr == w.data.arr && result.off == w.data.off + w.start && len(result) == len(w.data) - w.start
+//@   modifies nothing
+
+//@ func (w *serializeBuffer) PrependBytes(num int) ([]byte, error)
+//@   props C18
+//@   requires wfB(w) && fitsB(w, num)
+//@   panics_iff num < 0
+//@   ensures wfB(w) && result1 == nil && len(result0) == num
+//@   ensures result0.arr == w.data.arr && result0.off == w.data.off + w.start
+//@   ensures len(w.data) - w.start == old(len(w.data) - w.start) + num
+//@   ensures forall i int :: 0 <= i && i < old(len(w.data) - w.start) ==> w.data[w.start + num + i] == old(w.data[w.start + i])
+//@   ensures len(w.layers) == old(len(w.layers)) && w.layers.arr == old(w.layers.arr) && w.layers.off == old(w.layers.off)
+//@   modifies serializeBuffer.data serializeBuffer.start serializeBuffer.prepended elem:uint8 alloc
+
+//@ func (w *serializeBuffer) AppendBytes(num int) ([]byte, error)
+//@   props C18
+//@   requires wfB(w) && fitsB(w, num)
+//@   panics_iff num < 0
+//@   ensures wfB(w) && result1 == nil && len(result0) == num && w.start == old(w.start)
+//@   ensures result0.arr == w.data.arr && result0.off == w.data.off + old(len(w.data))
+//@   ensures len(w.data) == old(len(w.data)) + num
+//@   ensures forall i int :: 0 <= i && i < old(len(w.data) - w.start) ==> w.data[w.start + i] == old(w.data[w.start + i])
+//@   modifies serializeBuffer.data serializeBuffer.appended elem:uint8 alloc
+
+//@ func (w *serializeBuffer) Clear() error
+//@   props C18
+//@   requires wfB(w)
+//@   ensures wfB(w) && result == nil && len(w.data) - w.start == 0 && len(w.layers) == 0
+//@   modifies serializeBuffer.data serializeBuffer.start serializeBuffer.layers
+
+//@ func (w *serializeBuffer) Layers() []LayerType
+//@   props C18
+//@   ensures result.arr == w.layers.arr && result.off == w.layers.off && len(result) == len(w.layers)
+//@   modifies nothing
+
+//@ func (w *serializeBuffer) PushLayer(l LayerType)
+//@   props C18
+//@   ensures len(w.layers) == old(len(w.layers)) + 1 && w.layers[len(w.layers)-1] == l
+//@   ensures forall i int :: 0 <= i && i < old(len(w.layers)) ==> w.layers[i] == old(w.layers[i])
+//@   modifies serializeBuffer.layers elem:gopacket.LayerType alloc
+
+// ---- lemmas over the contracts above, as ghost code (compiled only with -tags verif, never called) --------
+// Each function below is verified modularly: a call to a function that has a written contract is replaced by
+// that contract, so what is proved is a consequence of the contracts, not of the bodies.
+
+//@ func verifLemmaEqIff(a Endpoint, b Endpoint) bool
+//@   props C17
+//@   requires wfE(a) && wfE(b)
+//@   ensures result == (a.typ == b.typ && seqeq(a.raw, a.len, b.raw, b.len))
+func verifLemmaEqIff(a, b Endpoint) bool { return a == b }
+
+//@ func verifLemmaFlowEqIff(f Flow, g Flow) bool
+//@   props C17
+//@   requires wfF(f) && wfF(g)
+//@   ensures result == (f.typ == g.typ && seqeq(f.src, f.slen, g.src, g.slen) && seqeq(f.dst, f.dlen, g.dst, g.dlen))
+func verifLemmaFlowEqIff(f, g Flow) bool { return f == g }
+
+//@ func verifLemmaRevRev(f Flow) bool
+//@   props C17
+//@   requires wfF(f)
+//@   ensures result
+func verifLemmaRevRev(f Flow) bool { return f.Reverse().Reverse() == f }
+
+//@ func verifLemmaSplitJoin(f Flow) bool
+//@   props C17
+//@   requires wfF(f)
+//@   ensures result
+func verifLemmaSplitJoin(f Flow) bool {
+	s, d := f.Endpoints()
+	g, err := FlowFromEndpoints(s, d)
+	return err == nil && g == f
+}
+
+//@ func verifLemmaHashSym(f Flow) bool
+//@   props C17
+//@   requires wfF(f)
+//@   ensures result
+func verifLemmaHashSym(f Flow) bool { return f.FastHash() == f.Reverse().FastHash() }
+
+//@ func verifLemmaNewFlowEndpoints(t EndpointType, s []byte, d []byte) bool
+//@   props C17
+//@   requires len(s) <= 16 && len(d) <= 16
+//@   ensures result
+func verifLemmaNewFlowEndpoints(t EndpointType, s, d []byte) bool {
+	a, b := NewFlow(t, s, d).Endpoints()
+	return a == NewEndpoint(t, s) && b == NewEndpoint(t, d)
+}
+
+//@ func verifLemmaReverseNewFlow(t EndpointType, s []byte, d []byte) bool
+//@   props C17
+//@   requires len(s) <= 16 && len(d) <= 16
+//@   ensures result
+func verifLemmaReverseNewFlow(t EndpointType, s, d []byte) bool {
+	return NewFlow(t, s, d).Reverse() == NewFlow(t, d, s)
+}
+
+//@ func verifLemmaOrder(a Endpoint, b Endpoint, c Endpoint) (irrefl bool, trans bool, total bool)
+//@   props C17
+//@   requires wfE(a) && wfE(b) && wfE(c)
+//@   ensures irrefl && trans && total
+func verifLemmaOrder(a, b, c Endpoint) (irrefl, trans, total bool) {
+	irrefl = !a.LessThan(a)
+	trans = !(a.LessThan(b) && b.LessThan(c)) || a.LessThan(c)
+	n := 0
+	if a.LessThan(b) {
+		n++
+	}
+	if b.LessThan(a) {
+		n++
+	}
+	if a == b {
+		n++
+	}
+	total = n == 1
+	return
+}
